@@ -20,6 +20,9 @@ import (
 // VerifCoordCall describes one call made by the library on the (mock) coordinator connection.
 type VerifCoordCall struct {
 	Conn   int    // connection id handed out by connect (1, 2, ...); the id being created for "connect"
+	Outcome string // Method "outcome": what the library's real Conn call returned (nil | k<code> | other) for call Of
+	Of      string
+	Dead   bool   // byte-level path: the connection was dropped earlier, the call cannot reach the coordinator (answer is ignored)
 	Method string // connect close findCoordinator joinGroup syncGroup leaveGroup heartbeat offsetFetch offsetCommit readPartitions
 
 	Addrs        []string // connect
@@ -31,6 +34,10 @@ type VerifCoordCall struct {
 	Partitions   map[string][]int32            // offsetFetch
 	Offsets      map[string]map[int]int64      // offsetCommit
 	Assign       map[string]map[string][]int32 // syncGroup: member -> topic -> partitions (nil when not leader)
+
+	SessionTimeoutMs   int32 // joinGroup
+	RebalanceTimeoutMs int32 // joinGroup
+	RetentionMs        int64 // offsetCommit
 }
 
 // VerifGroupOffset is one partition entry of an OffsetFetch response (list form: order and duplicates are kept).
@@ -51,6 +58,7 @@ type VerifGroupMember struct {
 type VerifCoordReply struct {
 	Err       error // returned as the call's error (what Conn does for non-zero error codes and network failures)
 	ErrorCode int16 // placed into the response's own ErrorCode field (findCoordinator, joinGroup, syncGroup)
+	ErrLast   bool  // byte-level path: put a per-partition error code on the last partition only
 
 	Host string // findCoordinator
 	Port int32
@@ -92,6 +100,9 @@ func verifGroupConnect(config *ConsumerGroupConfig) {
 		if r.Err != nil {
 			return nil, r.Err
 		}
+		if atomic.LoadInt32(&verifGroupWire) != 0 {
+			return newVerifWireCoordinator(id, h, config), nil
+		}
 		return &verifMockCoordinator{id: id, h: h}, nil
 	}
 }
@@ -117,8 +128,9 @@ func (m *verifMockCoordinator) findCoordinator(req findCoordinatorRequestV0) (fi
 	return findCoordinatorResponseV0{ErrorCode: r.ErrorCode, Coordinator: findCoordinatorResponseCoordinatorV0{NodeID: 1, Host: r.Host, Port: r.Port}}, nil
 }
 
-func (m *verifMockCoordinator) joinGroup(req joinGroupRequest) (joinGroupResponse, error) {
-	c := VerifCoordCall{Conn: m.id, Method: "joinGroup", GroupID: req.GroupID, MemberID: req.MemberID}
+func verifJoinCall(id int, req joinGroupRequest) VerifCoordCall {
+	c := VerifCoordCall{Conn: id, Method: "joinGroup", GroupID: req.GroupID, MemberID: req.MemberID,
+		SessionTimeoutMs: req.SessionTimeout, RebalanceTimeoutMs: req.RebalanceTimeout}
 	for i, p := range req.GroupProtocols {
 		c.Protocols = append(c.Protocols, p.ProtocolName)
 		if i == 0 {
@@ -128,6 +140,11 @@ func (m *verifMockCoordinator) joinGroup(req joinGroupRequest) (joinGroupRespons
 			}
 		}
 	}
+	return c
+}
+
+func (m *verifMockCoordinator) joinGroup(req joinGroupRequest) (joinGroupResponse, error) {
+	c := verifJoinCall(m.id, req)
 	r := m.h(c)
 	if r.Err != nil {
 		return joinGroupResponse{}, r.Err
@@ -142,8 +159,8 @@ func (m *verifMockCoordinator) joinGroup(req joinGroupRequest) (joinGroupRespons
 	return resp, nil
 }
 
-func (m *verifMockCoordinator) syncGroup(req syncGroupRequestV0) (syncGroupResponseV0, error) {
-	c := VerifCoordCall{Conn: m.id, Method: "syncGroup", GroupID: req.GroupID, MemberID: req.MemberID, GenerationID: req.GenerationID}
+func verifSyncCall(id int, req syncGroupRequestV0) VerifCoordCall {
+	c := VerifCoordCall{Conn: id, Method: "syncGroup", GroupID: req.GroupID, MemberID: req.MemberID, GenerationID: req.GenerationID}
 	if req.GroupAssignments != nil {
 		c.Assign = map[string]map[string][]int32{}
 		for _, ga := range req.GroupAssignments {
@@ -153,6 +170,11 @@ func (m *verifMockCoordinator) syncGroup(req syncGroupRequestV0) (syncGroupRespo
 			}
 		}
 	}
+	return c
+}
+
+func (m *verifMockCoordinator) syncGroup(req syncGroupRequestV0) (syncGroupResponseV0, error) {
+	c := verifSyncCall(m.id, req)
 	r := m.h(c)
 	if r.Err != nil {
 		return syncGroupResponseV0{}, r.Err
@@ -178,12 +200,17 @@ func (m *verifMockCoordinator) heartbeat(req heartbeatRequestV0) (heartbeatRespo
 	return heartbeatResponseV0{}, r.Err
 }
 
-func (m *verifMockCoordinator) offsetFetch(req offsetFetchRequestV1) (offsetFetchResponseV1, error) {
-	c := VerifCoordCall{Conn: m.id, Method: "offsetFetch", GroupID: req.GroupID, Partitions: map[string][]int32{}}
+func verifOffsetFetchCall(id int, req offsetFetchRequestV1) VerifCoordCall {
+	c := VerifCoordCall{Conn: id, Method: "offsetFetch", GroupID: req.GroupID, Partitions: map[string][]int32{}}
 	for _, t := range req.Topics {
 		c.Topics = append(c.Topics, t.Topic)
 		c.Partitions[t.Topic] = append([]int32(nil), t.Partitions...)
 	}
+	return c
+}
+
+func (m *verifMockCoordinator) offsetFetch(req offsetFetchRequestV1) (offsetFetchResponseV1, error) {
+	c := verifOffsetFetchCall(m.id, req)
 	r := m.h(c)
 	if r.Err != nil {
 		return offsetFetchResponseV1{}, r.Err
@@ -206,9 +233,9 @@ func verifGroupOffsetFetchResponse(entries []VerifGroupOffset) offsetFetchRespon
 	return resp
 }
 
-func (m *verifMockCoordinator) offsetCommit(req offsetCommitRequestV2) (offsetCommitResponseV2, error) {
-	c := VerifCoordCall{Conn: m.id, Method: "offsetCommit", GroupID: req.GroupID, MemberID: req.MemberID, GenerationID: req.GenerationID,
-		Offsets: map[string]map[int]int64{}}
+func verifOffsetCommitCall(id int, req offsetCommitRequestV2) VerifCoordCall {
+	c := VerifCoordCall{Conn: id, Method: "offsetCommit", GroupID: req.GroupID, MemberID: req.MemberID, GenerationID: req.GenerationID,
+		RetentionMs: req.RetentionTime, Offsets: map[string]map[int]int64{}}
 	for _, t := range req.Topics {
 		if c.Offsets[t.Topic] == nil {
 			c.Offsets[t.Topic] = map[int]int64{}
@@ -217,6 +244,11 @@ func (m *verifMockCoordinator) offsetCommit(req offsetCommitRequestV2) (offsetCo
 			c.Offsets[t.Topic][int(p.Partition)] = p.Offset
 		}
 	}
+	return c
+}
+
+func (m *verifMockCoordinator) offsetCommit(req offsetCommitRequestV2) (offsetCommitResponseV2, error) {
+	c := verifOffsetCommitCall(m.id, req)
 	r := m.h(c)
 	return offsetCommitResponseV2{}, r.Err
 }
